@@ -42,6 +42,17 @@ pub fn record_abi(opts: &Opts) -> i32 {
     }
     writeln!(out, "{}", json!({"ev": "absent", "back": EvaluatedMove::new(None, Score::Min).chess_move().map_or(-1i64, |x| code(x) as i64),
                                "back_with_scores": ok})).unwrap();
+    // a present move together with every kind of score (the two halves of the pair must not influence
+    // each other): a seventh of all moves (another seventh every seed) x sentinel, numeric and mate scores
+    for s in [Score::Min, Score::Max, Score::Raw(0), Score::Raw(i32::MIN), Score::Raw(i32::MAX), Score::WhiteMateIn(0),
+              Score::WhiteMateIn(65535), Score::BlackMateIn(0), Score::BlackMateIn(1)] {
+        let rows: Vec<Value> = (0..20480u32).filter(|c| c % 7 == (seed as u32) % 7).map(|c| {
+            let ev = EvaluatedMove::new(Some(decode(c)), s);
+            n += 1;
+            json!([c, ev.chess_move().map_or(-1i64, |x| code(x) as i64), score_json(ev.score())])
+        }).collect();
+        writeln!(out, "{}", json!({"ev": "pairs", "score": score_json(s), "rows": rows})).unwrap();
+    }
     // mate distances: all 2 x 65536 (or a stride plus the edges)
     for (kind, mk) in [("wm", Score::WhiteMateIn as fn(u16) -> Score), ("bm", Score::BlackMateIn as fn(u16) -> Score)] {
         let mut start = 0u32;
